@@ -117,5 +117,11 @@ func c24Freshness(clock0 int64, fromBase int64, fromOffsets []int64) {
 		v.Assert("C24.get.rows_older_than_invalidation_not_served", v.Implies(mustReload, rows2[0].tsValues.count == 2))
 	}
 	v.Assert("C24.get.size_bound", c.size+len(c.cache) <= c.approxMaxSize+2)
+	// the bound rests on exact accounting: the global size is the sum of what eviction will give back
+	acc := 0
+	for _, e := range c.cache {
+		acc += e.rowsSize + len(e.rows)
+	}
+	v.Assert("C24.get.size_accounting_exact", c.size == acc)
 	v.Reach("C24.get.end")
 }
